@@ -298,7 +298,11 @@ def check_corrupt(case):
             ops = [("write", lambda plc: plc.write(*pairs) if len(pairs) > 1 else plc.write(pairs[0][0], pairs[0][1]))]
         ops.append(("generic", lambda plc: plc.generic_message(service=0x0E, class_code=1, instance=1, attribute=1, connected=True)))
         ops.append(("time", lambda plc: plc.get_plc_time()))
-        plc, results = run_ops(factory, ops, discs, "corrupt", cor)
+        try:
+            plc, results = run_ops(factory, ops, discs, "corrupt", cor)
+        except harness.StepBudgetExceeded:
+            discs.append(Disc(f"corrupt.nonterminating.{cor.current_op or 'open'}", f"after the corrupted reply #{case['k']} ({case['mode']} {case['arg']}) the driver kept sending requests during {cor.current_op or 'open'} (step budget exceeded)"))
+            return discs
         # a reply cut before its status words (encapsulation status at 8-11, CIP status at 42 / 48) is never reported as success:
         # the call that consumed it must not come back all-truthy
         if cor.applied is not None and case["mode"] == "truncate" and len(cor.applied[1]) < 43 and cor.applied_during not in (None, "open"):
@@ -427,8 +431,54 @@ def corrupt_cases(draw):
     return case
 
 
+def check_unknown_type(code):
+    """the symbol list names a tag whose atomic type code the client does not know: every call that touches it answers with a falsy
+    Tag, other requests of the call are unaffected, nothing but a library exception may escape"""
+    from pycomm3.exceptions import PycommError
+    from ..refplc import RefPLC
+    pd = {"udts": [], "programs": [], "extras": [], "tags": [
+        {"name": "odd", "scope": None, "type": "DINT", "dims": [], "instance": 3, "access": 0, "alias": False, "raw_type_code": code},
+        {"name": "arr", "scope": None, "type": "INT", "dims": [4], "instance": 4, "access": 0, "alias": False, "raw_type_code": code},
+        {"name": "ok", "scope": None, "type": "DINT", "dims": [], "instance": 5, "access": 0, "alias": False}]}
+    tgt = RefPLC(pd, {"/odd": b"\x01\x02\x03\x04", "/arr": bytes(8), "/ok": (77).to_bytes(4, "little")}, {})
+    discs = []
+    try:
+        plc = harness.open_logix(tgt)
+    except PycommError:
+        harness.uninstall()
+        return []     # refusing such a project at upload is a library exception: allowed
+    except Exception as e:
+        harness.uninstall()
+        return [Disc(f"unknown-type.open.foreign.{type(e).__name__}", f"type code {code:#x}: {e!r}")]
+    try:
+        for name, fn in (("read", lambda: plc.read("odd")), ("read2", lambda: plc.read("odd", "ok")), ("read3", lambda: plc.read("arr{2}", "ok")),
+                         ("write", lambda: plc.write(("odd", 5))), ("write2", lambda: plc.write(("odd", 5), ("ok", 9))), ("readbit", lambda: plc.read("odd.1", "ok"))):
+            try:
+                res = fn()
+            except PycommError as e:
+                discs.append(Disc(f"unknown-type.{name}.raises.{type(e).__name__}", f"type code {code:#x}: {e!r}"))
+                continue
+            except Exception as e:
+                if S.where(e) == "harness":
+                    raise
+                discs.append(Disc(f"unknown-type.{name}.foreign.{type(e).__name__}", f"type code {code:#x}: {e!r}"))
+                continue
+            res = res if isinstance(res, list) else [res]
+            if name.endswith(("2", "3", "bit")) and len(res) == 2:
+                other = res[1]
+                if not other or other.value not in (77, 9):
+                    discs.append(Disc(f"unknown-type.{name}.other-request", f"type code {code:#x}: the request for the ordinary tag returned {other!r}"))
+        plc.close()
+    except PycommError:
+        pass
+    finally:
+        harness.uninstall()
+    return discs
+
+
 def plan(tier):
     jobs = [{"part": "matrix", "kind": k} for k in KINDS]
+    jobs.append({"part": "unknown-type"})
     jobs.append({"part": "multi"})
     jobs.append({"part": "short"})
     n = 8 if tier == "quick" else 32
@@ -443,6 +493,14 @@ EXTS = [[], [0x0000], [0x0100], [0x2105], [0x0204], [0xFFFF], [0x0001, 0x0002]]
 
 def run_job(ctx, job):
     part = job["part"]
+    if part == "unknown-type":
+        from pycomm3 import DataTypes
+        known = {c for c in range(0x1000) if DataTypes.get(c) is not None}
+        for code in [c for c in range(1, 0x100) if c not in known] + [0x100, 0x7FF, 0xFFF]:
+            for d in check_unknown_type(code):
+                ctx.violation(d, "unknown-type", {"code": code})
+            ctx.case(("unknown-type", code), True, ["unknown-type-code"])
+        return
     if part == "matrix":
         kind = job["kind"]
         svcs = REPLY_SERVICES if kind not in ("register", "listidentity") else [0x01]
@@ -499,4 +557,6 @@ def replay(ctx, kind, case):
         return check_short_reply(case["kind"], case["cut"], case.get("session", 0x1234))
     if kind == "forced":
         return check_forced(case)[0]
+    if kind == "unknown-type":
+        return check_unknown_type(case["code"])
     return check_corrupt(case)
